@@ -144,6 +144,22 @@ func getParentMethodT(
 	isStatic bool,
 ) *T {
 
+	return getParentMethodTGuarded(frame, class, method, isPrivate, isStatic, walkGuard{})
+}
+
+func getParentMethodTGuarded(
+	frame string,
+	class string,
+	method string,
+	isPrivate bool,
+	isStatic bool,
+	seen walkGuard,
+) *T {
+
+	if !seen.enter(frame, class) {
+		return nil
+	}
+
 	classNode := ClassNode{Frame: frame, Class: class}
 
 	for _, parentNode := range ClassInheritanceMap[classNode] {
@@ -221,12 +237,13 @@ func getParentMethodT(
 		}
 
 		methodT =
-			getParentMethodT(
+			getParentMethodTGuarded(
 				parentNode.Frame,
 				parentNode.Class,
 				method,
 				isPrivate,
 				isStatic,
+				seen,
 			)
 
 		if methodT != nil {
@@ -441,6 +458,23 @@ func setParentValueT(
 	isStatic bool,
 ) bool {
 
+	return setParentValueTGuarded(frame, class, method, variable, t, isStatic, walkGuard{})
+}
+
+func setParentValueTGuarded(
+	frame string,
+	class string,
+	method string,
+	variable string,
+	t *T,
+	isStatic bool,
+	seen walkGuard,
+) bool {
+
+	if !seen.enter(frame, class) {
+		return false
+	}
+
 	classNode := ClassNode{Frame: frame, Class: class}
 
 	for _, parentNode := range ClassInheritanceMap[classNode] {
@@ -466,7 +500,7 @@ func setParentValueT(
 		}
 
 		ok =
-			setParentValueT(parentNode.Frame, parentNode.Class, method, variable, t, isStatic)
+			setParentValueTGuarded(parentNode.Frame, parentNode.Class, method, variable, t, isStatic, seen)
 
 		if ok {
 			return true
@@ -521,6 +555,22 @@ func getParentValueT(
 	isStatic bool,
 ) *T {
 
+	return getParentValueTGuarded(frame, class, method, variable, isStatic, walkGuard{})
+}
+
+func getParentValueTGuarded(
+	frame string,
+	class string,
+	method string,
+	variable string,
+	isStatic bool,
+	seen walkGuard,
+) *T {
+
+	if !seen.enter(frame, class) {
+		return nil
+	}
+
 	classNode := ClassNode{Frame: frame, Class: class}
 
 	for _, parentNode := range ClassInheritanceMap[classNode] {
@@ -538,7 +588,7 @@ func getParentValueT(
 		}
 
 		valueT :=
-			getParentValueT(parentNode.Frame, parentNode.Class, method, variable, isStatic)
+			getParentValueTGuarded(parentNode.Frame, parentNode.Class, method, variable, isStatic, seen)
 
 		if valueT != nil {
 			return valueT
